@@ -150,7 +150,7 @@ Proof. exact deser_row_ordered_spec. Qed.
 (* enforce_order WITH allow_missing fields (names checked): whatever is accepted is the values of a
    subsequence of the struct's fields that contains every field not marked allow_missing, matched
    one to one, in order, against a prefix of the DB fields.  (Soundness only; that the generated
-   code picks the LONGEST such subsequence is covered by the tie, not by a theorem.) *)
+   code picks the LONGEST such subsequence is C16_ordered_am_* below.) *)
 Theorem C16_ordered_allow_missing_sound : forall d db cells, vd_snc d = false ->
   gen_ser_value_ordered d db = Ok cells ->
   exists used p rest, subseq used (nonskipped (vd_fields d)) /\
@@ -179,6 +179,57 @@ Theorem C16_ordered_am_deser_value : forall d db cells, vd_snc d = false ->
   outcome_of (gen_deser_value_ordered d db cells) = doc_deser_value_ordered_am d db cells /\
   gen_deser_value_ordered d db cells <> Err EPanic.
 Proof. exact deser_value_ordered_am_doc. Qed.
+
+(* KNOWN FINDING (docs/C16.md; class ordered-allow-missing-present-but-dropped).  The longest-selection
+   table is what the code does; the DOCUMENTED behaviour ("allow_missing: if the UDT definition does
+   not contain this field"; "enforce_order: if the order is incorrect ... will fail") is the strict
+   table [doc_*_ordered_strict], which rejects a UDT listing an allow_missing field of the struct at
+   a place where it does not get bound.  Full-strength statements (refuted by the witness below):
+     outcome_of (gen_ser_value_ordered d db) = doc_ser_value_ordered_strict d db, and
+     gen_typeck_value_ordered d db = Ok tt <-> doc_typeck_value_ordered_strict d db = true
+   ("the ordered mode accepts precisely the declared order").  Proved: outside the class. *)
+Theorem C16_ordered_strict_ser_value : forall d db, vd_snc d = false ->
+  NoDup (map vf_name (nonskipped (vd_fields d))) -> ordered_am_drops d db = false ->
+  outcome_of (gen_ser_value_ordered d db) = doc_ser_value_ordered_strict d db.
+Proof. exact ser_value_ordered_strict_doc. Qed.
+
+Theorem C16_ordered_strict_typeck_value : forall d db, vd_snc d = false ->
+  NoDup (map vf_name (nonskipped (vd_fields d))) -> ordered_am_drops d db = false ->
+  (gen_typeck_value_ordered d db = Ok tt <-> doc_typeck_value_ordered_strict d db = true).
+Proof. exact typeck_value_ordered_strict_doc. Qed.
+
+Theorem C16_ordered_strict_deser_value : forall d db cells, vd_snc d = false ->
+  NoDup (map vf_name (nonskipped (vd_fields d))) -> ordered_am_drops d db = false ->
+  doc_typeck_value_ordered_strict d db = true ->
+  outcome_of (gen_deser_value_ordered d db cells) = doc_deser_value_ordered_strict d db cells /\
+  gen_deser_value_ordered d db cells <> Err EPanic.
+Proof. exact deser_value_ordered_strict_doc. Qed.
+
+(* struct { #[allow_missing] a: i32 = -1, b: i32 = 7 } enforce_order, UDT (b int, a int): both fields
+   are there, swapped; the type is accepted, only b is sent, a comes back as 0 *)
+Theorem C16_ordered_precise_refuted : exists d db cells,
+  vd_ordered d = true /\ vd_snc d = false /\ vdesc_valid d = true /\ vvals_ok d = true /\
+  Permutation (map fst db) (map vf_name (nonskipped (vd_fields d))) /\
+  map fst db <> map vf_name (nonskipped (vd_fields d)) /\
+  ordered_am_drops d db = true /\
+  gen_typeck_value_ordered d db = Ok tt /\ doc_typeck_value_ordered_strict d db = false /\
+  gen_ser_value_ordered d db = Ok cells /\ doc_ser_value_ordered_strict d db = Reject /\
+  gen_deser_value_ordered d db cells = Ok [Some [0;0;0;0]; Some [0;0;0;7]].
+Proof. exact ordered_precise_refuted. Qed.
+
+(* precise round trip, enforce_order with names checked: exactly the fields of the longest
+   selection come back as their values, the others as Default *)
+Theorem C16_roundtrip_ordered_value_precise : forall d db cells used, vd_snc d = false ->
+  NoDup (map vf_name (nonskipped (vd_fields d))) -> vvals_ok d = true ->
+  doc_ordered_used (nonskipped (vd_fields d)) db = Some used ->
+  gen_ser_value_ordered d db = Ok cells -> gen_typeck_value_ordered d db = Ok tt ->
+  gen_deser_value_ordered d db cells = Ok (map (ordered_back used) (vd_fields d)).
+Proof. exact roundtrip_value_ordered_precise. Qed.
+
+(* the underflow guard of remaining_count in by-name SerializeValue is never hit *)
+Theorem C16_ser_value_by_name_nopanic : forall d db,
+  NoDup (map vf_name (nonskipped (vd_fields d))) -> gen_ser_value_by_name d db <> Err EPanic.
+Proof. exact ser_value_by_name_nopanic. Qed.
 
 (* skip_name_checks: positional binding, types only *)
 Theorem C16_snc_ser_value : forall d db, vd_snc d = true ->
@@ -363,6 +414,19 @@ Example C16_ex_ordered_am :
     = Accept [Some [0;0;0;0]; Some [99]].
 Proof. repeat split; vm_compute; reflexivity. Qed.
 
+Example C16_ex_ordered_am_class :
+  ordered_am_drops ex_am [("b", DText); ("a", DInt)]%string = true /\
+  ordered_am_drops ex_am [("a", DInt); ("b", DText)]%string = false /\
+  ordered_am_drops ex_am [("b", DText)]%string = false /\
+  ordered_am_drops ex_am [("b", DText); ("zz", DInt)]%string = false /\
+  doc_typeck_value_ordered_strict ex_am [("b", DText); ("a", DInt)]%string = false /\
+  doc_typeck_value_ordered_strict ex_am [("b", DText); ("zz", DInt)]%string = true /\
+  doc_ser_value_ordered_strict ex_am [("b", DText); ("a", DInt)]%string = Reject /\
+  doc_ser_value_ordered_strict ex_am [("a", DInt); ("b", DText)]%string = Accept [Some [0;0;0;7]; Some [98]] /\
+  map (ordered_back [ex_f "b" None false false false RText (Some [98])]%string) (vd_fields ex_am)
+    = [Some [0;0;0;0]; Some [98]].
+Proof. repeat split; vm_compute; reflexivity. Qed.
+
 (* skip_name_checks: positional, types only *)
 Definition ex_snc : vdesc :=
   {| vd_ordered := true; vd_forbid := true; vd_snc := true;
@@ -434,3 +498,9 @@ Print Assumptions C16_snc_deser_value.
 Print Assumptions C16_ordered_gen_ser_row.
 Print Assumptions C16_snc_typeck_row.
 Print Assumptions C16_snc_deser_row.
+Print Assumptions C16_ordered_strict_ser_value.
+Print Assumptions C16_ordered_strict_typeck_value.
+Print Assumptions C16_ordered_strict_deser_value.
+Print Assumptions C16_ordered_precise_refuted.
+Print Assumptions C16_roundtrip_ordered_value_precise.
+Print Assumptions C16_ser_value_by_name_nopanic.
